@@ -188,7 +188,7 @@ func famAuthz(w *world, r *hx.Rng, o *hx.Out) {
 	ctx := w.A.GetContext()
 	chans := []string{"channel-0", "channel-1", "channel-27"}
 	addrs := []string{"cosmos1receiverA", "cosmos1receiverB", "cosmos1receiverC", w.B.SenderAccount.GetAddress().String()}
-	n := hx.N(150, 4000)
+	n := hx.N(150, 1200)
 
 	// ValidateBasic: valid grants and one-defect mutations
 	for i := 0; i < n; i++ {
@@ -274,7 +274,7 @@ func famAuthzExec(w *world, r *hx.Rng, o *hx.Out) {
 	chans := []string{w.paths[0].EndpointA.ChannelID, w.paths[1].EndpointA.ChannelID}
 	denoms := []string{"stake", "uauthz"}
 	msgType := sdk.MsgTypeURL(&transfertypes.MsgTransfer{})
-	seqs := hx.N(5, 80)
+	seqs := hx.N(5, 30)
 	for s := 0; s < seqs; s++ {
 		if err := mintTo(w.A, gAddr, sdk.NewInt64Coin("uauthz", int64(500+r.Intn(500)))); err != nil {
 			w.t.Fatalf("mint: %v", err)
